@@ -5,15 +5,18 @@
    AFTER the five repairs this property led to (/repo c22d480, fda3f9e, 2e6bc3e, 8bc4a03, 36a9ed3).
 
    What is proved here (all unconditional; "partial" = a part of the property's statement, see "what is missing" below)
-   -- the program level (binary form)
+   -- the program level
      c12_program_binary            a program whose relation r0 is tagged #[ds(trrel_uf)], run by the engine model on a validated plan,
                                    computes the least model of the program extended with the explicit rules
                                      r0(x,x) <-- r0(x,_);  r0(y,y) <-- r0(_,y);  r0(x,z) <-- r0(x,y), r0(y,z)
+     c12_program_ternary           the same for the ternary form (with or without reverse maps), closure per value of column 0:
+                                     r0(k,x,x) <-- r0(k,x,_);  r0(k,y,y) <-- r0(k,_,y);  r0(k,x,z) <-- r0(k,x,y), r0(k,y,z)
      c12_engine_theorem            the engine theorem for a provider-backed relation from laws over the histories generated code
                                    produces (a stratum boundary only after a merge that moved nothing); it generalises
                                    Engine/ProvProofsW.prun_plan_correct_w (c12_engine_laws_generalise)
      c12_binary_engine_laws        the packaged binary provider meets those laws with cl = reflexive transitive closure on mentioned
                                    elements;  c12_rules_bridge: closed under that cl = closed under the three explicit rules
+     c12_ternary_engine_laws, c12_rules_bridge_ternary   the same for the ternary form
    -- the binary provider on EVERY history (Provider.v histories PIns / PMerge / PRestart with a boundary only after a merge that
       moved nothing, which is where generated code ends a stratum; insertions are arbitrary, guarded or not)
      c12_binary_exact              after every operation total + delta serve EXACTLY the reflexive transitive closure of the pairs
@@ -25,10 +28,27 @@
      c12_binary_boundary           a boundary hands total over as the next delta and empties total
      c12_binary_provider_is_model  the packaged provider walks through exactly the states of the operation-sequence model
                                    (run_state (bin_prov dom)) that the tie compares with the real provider, for every history
+     c12_binary_keyed_views        index [0] / [1] (ind0 / ind1 index_get and iter_all) of both versions serve, for their key, exactly what
+                                   the full index of that version serves, and never fail
      c12_any_boundary_refuted      the exactness statement does NOT extend to a boundary in the middle of a round: total holds the
                                    reflexive pair of the elements of the last `new` while the ghost of Byods/Provider.v drops the
                                    round (so Engine/ProvLaws.engine_laws, quantified over boundaries anywhere, is not met; the
                                    engine never produces such a history)
+   -- the generic ternary adaptor on EVERY history (same histories; both settings of the two reverse maps)
+     c12_ternary_exact             after every operation total + delta serve, for every key, EXACTLY the reflexive transitive closure of the
+                                   pairs merged under that key (full index: iter_all / contains_key)
+     c12_ternary_ops_never_fail    insert, merge (its two loops, the unwraps on the reverse maps, the rebuild of the delta's reverse maps),
+                                   iter_all and contains_key of both versions never fail
+     c12_ternary_contains, c12_ternary_p3_weak, c12_ternary_quiescent, c12_ternary_boundary   as for the binary form
+     c12_ternary_keyed_views       index [0], [0,1], [0,2] (index_get and iter_all) of both versions agree with the full index, never fail
+     c12_ternary_reverse_get / _all / _12_get / _12_all   the views through the reverse maps (index [1], [2], [1,2]; when the maps exist)
+                                   never fail (no unwrap on a listed key, no division by zero) and return a tuple iff its key is listed
+                                   under the column value AND the full index has it (soundness; exact characterisation)
+     c12_ternary_reverse_complete_delta   the delta's reverse maps list every tuple of delta: its views [1], [2], [1,2] are complete
+     c12_ternary_reverse_complete_total   a tuple of total is listed in total's reverse maps, or delta has it as well (completeness
+                                   modulo the weak form of P3: the reflexive pairs of the elements of the last round)
+     c12_ternary_provider_is_model whenever the operation-sequence model of the ternary form (which also reads every view) runs a
+                                   history, the packaged provider is in the same state
    -- earlier statements
      c12_nonrecursive_exact        binary form, non-recursive use: a stratum that only inserts ends without failure, and every view of
                                    what it leaves serves EXACTLY the reflexive transitive closure (soundness and completeness)
@@ -53,10 +73,11 @@
    cover such a tuple (that is what c12_engine_theorem proves).
    The five former refutations are now positive (the theorems c12_witness_...); the refutations themselves are kept on the model of the code
    before the repairs (Byods/TrUfProvBeforeFix.v, module BeforeFix): the theorems c12_before_fix_refuted_...
-   What is missing (carried by the tie only): c12_binary_exact speaks about the full-index views (iter_all / contains of total and
-   delta); exactness of the keyed views (ind0 / ind1 get and iter_all) of a Delta on recursive histories is proved only as soundness
-   (c12_sound_partial) — their completeness follows the same class pairs but is not stated; soundness, completeness and
-   panic-freedom of the ternary adaptor for every history (only the five witnesses and the tie). *)
+   What is missing (carried by the tie only): multiplicities (that a view returns each tuple once) are proved only for Total-shaped
+   versions (C18's NoDup statements); the composite observation functions read_bin / read_ter of the model (a harness artefact: every
+   view evaluated over a finite domain) are shown not to fail for the binary form only (c12_never_panics_partial) — for the ternary form
+   each view is shown not to fail separately; the statements about every history are about histories whose stratum boundaries follow a
+   merge that moved nothing (what generated code does), not boundaries anywhere (c12_any_boundary_refuted shows why). *)
 From Coq Require Import List Arith Bool ZArith.
 From AV Require Import Engine.Core Engine.Sem Engine.Eval Engine.Validate Engine.Naive Engine.Interface.
 From AV Require Import Byods.Provider Engine.EvalProv Engine.InterfaceProv Engine.ProvLaws.
@@ -67,6 +88,9 @@ From AV Require Import Byods.TrUfProvModel.
 From AV Require Import Byods.TrUfProvProofs.
 From AV Require Import Byods.TrUfProvBeforeFix.
 From AV Require Import Byods.TrUfProvLaws.
+From AV Require Import Byods.TrUfProvTernary.
+From AV Require Import Byods.TrUfProvViews.
+From AV Require Import Byods.TrUfProvRevViews.
 From AV Require Import Byods.TrUfProvEngine.
 From AV Require Import Byods.TrUfProvProgram.
 Import ListNotations.
@@ -97,6 +121,21 @@ Proof. exact (conj rtc2_closure_op (conj rtc2_arity trrel_uf_binary_qengine_laws
 Theorem c12_rules_bridge : forall I P r0 F0 M,
   least_model_cl I P rtc2 r0 F0 M <-> least_model I (P ++ rtc_rules r0) F0 M.
 Proof. exact least_model_rtc2_iff. Qed.
+
+Theorem c12_program_ternary : forall h1 h2 I swap r0 arities P pl fuel F0 st,
+  In (r0, 3%nat) arities -> arities_functional arities -> wf_facts arities F0 = true -> no_agg P = true ->
+  (forall f, In f F0 -> fst f <> r0) -> validate arities P pl = true ->
+  prun_plan I swap (trrel_uf_ternary h1 h2) r0 fuel pl F0 = Some st ->
+  least_model I (P ++ rtc_rules3 r0) F0 (pfacts (trrel_uf_ternary h1 h2) r0 st).
+Proof. exact trrel_uf_program_ternary. Qed.
+
+Theorem c12_ternary_engine_laws : forall h1 h2,
+  closure_op tuple rtc3 /\ cl_arity rtc3 3 /\ qengine_laws (trrel_uf_ternary h1 h2) rtc3.
+Proof. intros h1 h2. exact (conj rtc3_closure_op (conj rtc3_arity (trrel_uf_ternary_qengine_laws h1 h2))). Qed.
+
+Theorem c12_rules_bridge_ternary : forall I P r0 F0 M,
+  least_model_cl I P rtc3 r0 F0 M <-> least_model I (P ++ rtc_rules3 r0) F0 M.
+Proof. exact least_model_rtc3_iff. Qed.
 
 (* a non-trivial instance of the closure operator on tuples: a chain and a back edge, and a tuple of the wrong shape left alone *)
 Example c12_example_rtc2 : length (rtc2 [[1; 2]; [2; 3]; [3; 1]; [7]; [5; 5]]%Z) = 11%nat.
@@ -136,9 +175,111 @@ Theorem c12_binary_provider_is_model : forall dom h,
              Provider.run T2 PU h = (s_new st, s_delta st, s_total st).
 Proof. exact pu_is_model. Qed.
 
+Theorem c12_binary_keyed_views : forall h v, qhist h ->
+  keyed_ok (pu_ver (Provider.run T2 PU h) v) (Provider.p_read T2 PU (Provider.run T2 PU h) v).
+Proof. exact pu_keyed. Qed.
+
 Theorem c12_any_boundary_refuted :
   exists h x y, In (x, y) (Provider.served T2 PU (Provider.run T2 PU h)) /\ ~ rtc (g_td T2 (ghost_of T2 h)) x y.
 Proof. exact pu_any_boundary_refuted. Qed.
+
+(* ---- the ternary adaptor on every history *)
+Theorem c12_ternary_exact : forall h1 h2 h, qhist3 h ->
+  forall k x y, In (k, (x, y)) (Provider.served T3 (PT h1 h2) (Provider.run T3 (PT h1 h2) h)) <->
+                rtc (proj k (g_td T3 (ghost_of T3 h))) x y.
+Proof. exact pt_served. Qed.
+
+Theorem c12_ternary_ops_never_fail : forall h1 h2 h n d t, qhist3 h -> Provider.run T3 (PT h1 h2) h = (n, d, t) ->
+  (forall k x y, exists r, t_insert n k x y = Ok r) /\ (exists r, t_merge n d t = Ok r) /\
+  (forall v, exists L, t_all (pt_ver (n, d, t) v) = Ok L) /\
+  (forall v k x y, exists b, t_contains (pt_ver (n, d, t) v) k x y = Ok b).
+Proof. exact pt_ops_ok. Qed.
+
+Theorem c12_ternary_contains : forall h1 h2 h v p, qhist3 h ->
+  (Provider.p_contains T3 (PT h1 h2) (Provider.run T3 (PT h1 h2) h) v p = true <->
+   In p (Provider.p_read T3 (PT h1 h2) (Provider.run T3 (PT h1 h2) h) v)).
+Proof. exact pt_contains_iff. Qed.
+
+Theorem c12_ternary_p3_weak : forall h1 h2 h, qhist3 h ->
+  incl (Provider.p_read T3 (PT h1 h2) (Provider.run T3 (PT h1 h2) (h ++ [PMerge])) VTotal)
+       (Provider.served T3 (PT h1 h2) (Provider.run T3 (PT h1 h2) h) ++
+        Provider.p_read T3 (PT h1 h2) (Provider.run T3 (PT h1 h2) (h ++ [PMerge])) VDelta).
+Proof. exact pt_merge_total. Qed.
+
+Theorem c12_ternary_quiescent : forall h1 h2 h, qhist3 h -> g_new T3 (ghost_of T3 h) = [] ->
+  incl (Provider.served T3 (PT h1 h2) (Provider.run T3 (PT h1 h2) (h ++ [PMerge])))
+       (Provider.p_read T3 (PT h1 h2) (Provider.run T3 (PT h1 h2) (h ++ [PMerge])) VTotal).
+Proof. exact pt_quiescent. Qed.
+
+Theorem c12_ternary_boundary : forall h1 h2 h,
+  incl (Provider.p_read T3 (PT h1 h2) (Provider.run T3 (PT h1 h2) h) VTotal)
+       (Provider.served T3 (PT h1 h2) (Provider.run T3 (PT h1 h2) (h ++ [PRestart]))) /\
+  Provider.p_read T3 (PT h1 h2) (Provider.run T3 (PT h1 h2) (h ++ [PRestart])) VTotal = [].
+Proof. intros h1 h2 h. exact (conj (pt_restart_serves h1 h2 h) (pt_restart_total h1 h2 h)). Qed.
+
+Theorem c12_ternary_keyed_views : forall h1 h2 h v, qhist3 h ->
+  let s := Provider.run T3 (PT h1 h2) h in let t := pt_ver s v in
+  (forall k, exists o, t_i0_get t k = Ok o /\
+     (forall l, o = Some l -> forall p, In p l <-> In (k, p) (Provider.p_read T3 (PT h1 h2) s v)) /\
+     (o = None -> forall p, ~ In (k, p) (Provider.p_read T3 (PT h1 h2) s v))) /\
+  (forall rev k x, exists o, t_i0x_get rev t k x = Ok o /\
+     (forall ys, o = Some ys -> forall y, In y ys <-> In (k, opair rev x y) (Provider.p_read T3 (PT h1 h2) s v)) /\
+     (o = None -> forall y, ~ In (k, opair rev x y) (Provider.p_read T3 (PT h1 h2) s v))) /\
+  (forall rev, exists L, t_i0x_all rev t = Ok L /\
+     (forall k x ys, In (k, x, ys) L -> forall y, In y ys <-> In (k, opair rev x y) (Provider.p_read T3 (PT h1 h2) s v)) /\
+     (forall k x y, In (k, opair rev x y) (Provider.p_read T3 (PT h1 h2) s v) -> exists ys, In (k, x, ys) L)).
+Proof. exact pt_keyed. Qed.
+
+(* the views through the reverse maps; i = false: index [1] / reverse_map1, i = true: index [2] / reverse_map2 *)
+Theorem c12_ternary_reverse_get : forall h1 h2 h v i m, qhist3 h -> rmsel i (pt_ver (Provider.run T3 (PT h1 h2) h) v) = Some m ->
+  forall x, exists o, t_i12x_get i (pt_ver (Provider.run T3 (PT h1 h2) h) v) x = Ok o /\
+    (o = None <-> aget x m = None) /\
+    (forall l, o = Some l -> forall k y, In (k, y) l <->
+       (mhas x k m = true /\ In (k, opair i x y) (Provider.p_read T3 (PT h1 h2) (Provider.run T3 (PT h1 h2) h) v))).
+Proof. exact pt_rev_get. Qed.
+
+Theorem c12_ternary_reverse_all : forall h1 h2 h v i m, qhist3 h -> rmsel i (pt_ver (Provider.run T3 (PT h1 h2) h) v) = Some m ->
+  exists L, t_i12x_all i (pt_ver (Provider.run T3 (PT h1 h2) h) v) = Ok L /\
+    (forall x l, In (x, l) L -> forall k y, In (k, y) l <->
+       (mhas x k m = true /\ In (k, opair i x y) (Provider.p_read T3 (PT h1 h2) (Provider.run T3 (PT h1 h2) h) v))) /\
+    (forall x, aget x m <> None -> exists l, In (x, l) L).
+Proof. exact pt_rev_all. Qed.
+
+Theorem c12_ternary_reverse_12_get : forall h1 h2 h v m1 m2, qhist3 h ->
+  rm1 (pt_ver (Provider.run T3 (PT h1 h2) h) v) = Some m1 -> rm2 (pt_ver (Provider.run T3 (PT h1 h2) h) v) = Some m2 ->
+  forall x1 x2, exists o, t_i12_get (pt_ver (Provider.run T3 (PT h1 h2) h) v) x1 x2 = Ok o /\
+    (forall l, o = Some l -> forall k, In k l <->
+       (mhas x1 k m1 = true /\ mhas x2 k m2 = true /\
+        In (k, (x1, x2)) (Provider.p_read T3 (PT h1 h2) (Provider.run T3 (PT h1 h2) h) v))).
+Proof. exact pt_rev12_get. Qed.
+
+Theorem c12_ternary_reverse_12_all : forall h1 h2 h v m1 m2, qhist3 h ->
+  rm1 (pt_ver (Provider.run T3 (PT h1 h2) h) v) = Some m1 -> rm2 (pt_ver (Provider.run T3 (PT h1 h2) h) v) = Some m2 ->
+  (exists L, t_i12_all (pt_ver (Provider.run T3 (PT h1 h2) h) v) = Ok L) /\
+  (exists n, t_i12_len_estimate (pt_ver (Provider.run T3 (PT h1 h2) h) v) = Ok n).
+Proof. exact pt_rev12_all. Qed.
+
+Theorem c12_ternary_reverse_complete_delta : forall h1 h2 h i m, qhist3 h ->
+  rmsel i (pt_ver (Provider.run T3 (PT h1 h2) h) VDelta) = Some m ->
+  forall k x y, In (k, (x, y)) (Provider.p_read T3 (PT h1 h2) (Provider.run T3 (PT h1 h2) h) VDelta) -> mhas (csel i x y) k m = true.
+Proof. exact pt_rev_complete_delta. Qed.
+
+Theorem c12_ternary_reverse_complete_total : forall h1 h2 h i m, qhist3 h ->
+  rmsel i (pt_ver (Provider.run T3 (PT h1 h2) h) VTotal) = Some m ->
+  forall k x y, In (k, (x, y)) (Provider.p_read T3 (PT h1 h2) (Provider.run T3 (PT h1 h2) h) VTotal) ->
+    mhas (csel i x y) k m = true \/ In (k, (x, y)) (Provider.p_read T3 (PT h1 h2) (Provider.run T3 (PT h1 h2) h) VDelta).
+Proof. exact pt_rev_complete_total. Qed.
+
+Theorem c12_ternary_provider_is_model : forall h1 h2 dom kdom h st,
+  run_state (ter_prov h1 h2 dom kdom) (ps_init (ter_prov h1 h2 dom kdom)) (ops_of3 h) = Ok st ->
+  Provider.run T3 (PT h1 h2) h = (s_new st, s_delta st, s_total st).
+Proof. exact pt_is_model. Qed.
+
+(* a non-trivial instance: two keys, a cycle under key 0 closed while a delta exists; 9 + 3 tuples *)
+Example c12_example_ternary :
+  length (Provider.p_read T3 (PT true true)
+            (Provider.run T3 (PT true true) [PIns (0, (0, 1)); PIns (0, (1, 2)); PIns (1, (5, 6)); PMerge; PIns (0, (2, 0)); PMerge; PMerge]) VTotal) = 12.
+Proof. vm_compute. reflexivity. Qed.
 
 (* ---- non-recursive use: exact, unconditional *)
 Theorem c12_nonrecursive_exact : forall dom ins,
@@ -241,6 +382,25 @@ Example c12_example_cycle : protocol_ok wit_cycle = true /\ any_panic (run_bin 3
 Proof. exact wit_cycle_runs. Qed.
 
 Print Assumptions c12_program_binary.
+Print Assumptions c12_program_ternary.
+Print Assumptions c12_ternary_engine_laws.
+Print Assumptions c12_rules_bridge_ternary.
+Print Assumptions c12_ternary_exact.
+Print Assumptions c12_ternary_ops_never_fail.
+Print Assumptions c12_ternary_contains.
+Print Assumptions c12_ternary_p3_weak.
+Print Assumptions c12_ternary_quiescent.
+Print Assumptions c12_ternary_boundary.
+Print Assumptions c12_ternary_provider_is_model.
+Print Assumptions c12_binary_keyed_views.
+Print Assumptions c12_ternary_keyed_views.
+Print Assumptions c12_ternary_reverse_get.
+Print Assumptions c12_ternary_reverse_all.
+Print Assumptions c12_ternary_reverse_12_get.
+Print Assumptions c12_ternary_reverse_12_all.
+Print Assumptions c12_ternary_reverse_complete_delta.
+Print Assumptions c12_ternary_reverse_complete_total.
+Print Assumptions c12_example_ternary.
 Print Assumptions c12_engine_theorem.
 Print Assumptions c12_engine_laws_generalise.
 Print Assumptions c12_binary_engine_laws.
